@@ -432,8 +432,10 @@ def m_generic_cmp(ctx):
     a, b = (ex.deref_val(st, x) for x in ctx.args[:2])
     if (z3.is_bv(a) or z3.is_bool(a)) and (z3.is_bv(b) or z3.is_bool(b)):
         return [(None, scalar_cmp(ex, op, a, b))]
-    if a == () and b == ():
+    if isinstance(a, tuple) and isinstance(b, tuple) and a == () and b == ():
         return [(None, z3.BoolVal(op in ('eq', 'le', 'ge')))]
+    if z3.is_expr(a) and z3.is_expr(b) and a.sort() == b.sort() and op in ('eq', 'ne'):
+        return [(None, (a == b) if op == 'eq' else (a != b))]        # values of an abstract sort (e.g. hashes as free constructors)
     if op in ('lt', 'le', 'gt', 'ge') and ex.resolve_fn(ctx.callee, len(ctx.args)) is None:
         base = ctx.callee[:-len(op)]
         tgt = ex.resolve_fn(base + 'partial_cmp', len(ctx.args)) or ex.resolve_fn(base.replace('PartialOrd', 'Ord') + 'cmp', len(ctx.args))
